@@ -78,10 +78,12 @@ def _kfl(ctx, rng, st):
   L, dims = int(rng.choice([2, 3, 4])), int(rng.randint(1, 5))
   units, T = int(rng.choice([1, 2, 3])), int(rng.choice([1, 2, 3]))
   clip = bool(rng.rand() < .6)
-  layer = tfl.layers.KroneckerFactoredLattice(lattice_sizes=L, units=units, num_terms=T, clip_inputs=clip)
+  dt = "float64" if rng.rand() < .2 else "float32"          # float64 layers must agree at float64 resolution
+  dkw = {} if dt == "float32" else {"dtype": dt}
+  layer = tfl.layers.KroneckerFactoredLattice(lattice_sizes=L, units=units, num_terms=T, clip_inputs=clip, **dkw)
   B = 8
   span = 1.5 if clip else 0.0
-  x = rng.uniform(-span, L - 1 + span, size=(B, units, dims)).astype(np.float32)
+  x = rng.uniform(-span, L - 1 + span, size=(B, units, dims)).astype(np.float32).astype(dt)
   x[0] = np.round(np.clip(x[0], 0, L - 1))
   xin = x if units > 1 else x[:, 0, :]
   layer(tf.constant(xin))
@@ -91,12 +93,13 @@ def _kfl(ctx, rng, st):
   layer.kernel.assign(K); layer.scale.assign(S); layer.bias.assign(b)
   y = _call(st, layer, tf.constant(xin)).numpy().reshape(B, units)
   dense = okfl.dense_kernel(K, S, b)
-  lat = tfl.layers.Lattice(lattice_sizes=[L] * dims, units=units, clip_inputs=clip)
+  lat = tfl.layers.Lattice(lattice_sizes=[L] * dims, units=units, clip_inputs=clip, **dkw)
   lat(tf.constant(xin))
-  lat.kernel.assign(dense.astype(np.float32))
+  lat.kernel.assign(dense.astype(dt))
   y2 = lat(tf.constant(xin)).numpy().reshape(B, units)
   mag = okfl.evaluate(np.abs(K), np.abs(S), np.abs(b), x.astype(np.float64), clip=clip)
-  tol = core.REL_TOL * max(1.0, float(mag.max())) * 4
+  tol = (core.REL_TOL if dt == "float32" else 1e-11) * max(1.0, float(mag.max())) * 4
+  ctx.cls("kfl:dtype=" + dt)
   ctx.cls("kfl:L=%d" % L, "kfl:dims=%d" % dims, "kfl:units=%d" % units, "kfl:terms=%d" % T, "kfl:clip=%s" % clip)
   _pair(ctx, "pair/kfl=dense-lattice", y, y2, tol, "KFL vs Lattice(dense kernel)")
   ref = np.stack([ol.hypercube(dense[:, u:u + 1], [L] * dims, x[:, u, :].astype(np.float64), clip)[:, 0] for u in range(units)], axis=1)
@@ -117,9 +120,10 @@ def _pwl_fn(ctx, rng, st):
   omin, omax = float(rng.choice([0.0, -2.0])), None
   omax = omin + float(rng.choice([1.0, 5.0]))
   mag = float(rng.choice([0.5, 2.0, 6.0]))
+  derived = bool(use_missing and rng.rand() < .5)          # imputed output derived from the last output parameter
   miv = float(np.float32(imin - 3.0)) if use_missing else None
-  mov = float(omin + 0.3 * (omax - omin)) if use_missing else None
-  out_size = nk - cmin - cmax - cyc
+  mov = float(omin + 0.3 * (omax - omin)) if (use_missing and not derived) else None
+  out_size = nk - cmin - cmax - cyc + derived
   kin = (rng.normal(size=(1, units, nk - 2)) * mag).astype(np.float32)
   kout = (rng.normal(size=(1, units, out_size)) * mag).astype(np.float32)
   B = 12
@@ -143,6 +147,11 @@ def _pwl_fn(ctx, rng, st):
   layer = tfl.layers.PWLCalibration(input_keypoints=kp_init.tolist(), units=units, input_keypoints_type="learned_interior",
                                     impute_missing=use_missing, missing_input_value=miv, missing_output_value=mov)
   layer(tf.constant(x))
+  ctx.cls("pwl_fn:derived_missing=%s" % derived)
+  if derived:
+    # documented: the imputed output is the sigmoid of each unit's last output parameter rescaled into the output range
+    mo = omin + (omax - omin) / (1.0 + np.exp(-kout[0, :, -1].astype(np.float64)))
+    layer.missing_output.assign(mo.reshape(1, units).astype(np.float32))
   logits = np.concatenate([np.zeros((units, 1), dtype=np.float32), kin[0]], axis=1)
   layer.interpolation_logits.assign(logits)
   layer.kernel.assign(heights.T.astype(np.float32))
@@ -156,6 +165,8 @@ def _pwl_fn(ctx, rng, st):
     fixed = tfl.layers.PWLCalibration(input_keypoints=kp.tolist(), units=1, impute_missing=use_missing,
                                       missing_input_value=miv, missing_output_value=mov)
     fixed(tf.constant(x))
+    if derived:
+      fixed.missing_output.assign(mo.reshape(1, 1).astype(np.float32))
     fixed.kernel.assign(heights.T.astype(np.float32))
     y2 = fixed(tf.constant(x)).numpy().astype(np.float64)
     _pair(ctx, "pair/pwl_fn=fixed-layer", y, y2, tol * 2, "pwl_calibration_fn vs PWLCalibration(fixed derived keypoints)")
